@@ -17,7 +17,7 @@ W=$W python3 - <<'PY'
 import json,glob,re,os
 p='seeded/matrix.json'
 m=json.load(open(p)) if os.path.exists(p) else {}
-for f in glob.glob('$W/matrix_*.txt'):
+for f in glob.glob(os.environ['W']+'/matrix_*.txt'):
     sid=f.split('matrix_')[1][:-4]
     row={}
     for l in open(f):
